@@ -4,6 +4,7 @@ import (
 	"fmt"
 	"net"
 	"runtime"
+	"runtime/debug"
 	"sync"
 	"time"
 
@@ -123,6 +124,10 @@ func Lifecycle(a Args) {
 		time.Sleep(300 * time.Millisecond)
 		baseG = runtime.NumGoroutine()
 	}
+	// The garbage collector's finalizers close sockets nobody closed: a leaked backend connection would
+	// look released a little later. The collector is off while an experiment settles; it runs between
+	// experiments (so that memory stays bounded and a leak does not spill into the next experiment).
+	debug.SetGCPercent(-1)
 	n, bad := 0, 0
 	for _, s := range streams {
 		if bad >= 12 {
@@ -198,6 +203,7 @@ func Lifecycle(a Args) {
 			// put the data back for the next experiment
 			must(st.Load(w, stack.MMap{"k1": {V: []int{9}, F: 1, E: absx.Inf}}, stack.MMap{"k1": {V: []int{9}, F: 1, E: absx.Inf}, "k2": {V: []int{8}, F: 0, E: absx.Inf}}, 0, keys))
 			_, _, _ = settle(baseG, 500*time.Millisecond)
+			runtime.GC()
 			rec.Emit(map[string]interface{}{"ev": "prefix", "cfg": a.Cfg.String(), "proto": a.Proto, "stream": s.name, "n": k, "len": len(all), "at": at,
 				"open_l1": o1, "open_l2": o2, "gor": g, "fresh_ok": fresh == "ok", "fresh": fresh, "accepting": accepting})
 			n++
